@@ -7,7 +7,7 @@ import os
 ROOT = os.path.dirname(os.path.dirname(os.path.abspath(__file__)))
 NOTES = {
     "C07-r2-1": "patch.diff was rebased by the lead onto the repaired tree (a later fix changed render_string); patch.orig.diff is the sub-agent's original",
-    "C05-r2-1": "same change as C07-r2-1 (word spacing after CID 32 of a composite font); C05's generator uses simple fonts only, the change is caught by C07 whose property covers composite fonts; patch.diff rebased by the lead",
+    "C05-r2-1": "same change as C07-r2-1 (word spacing after CID 32 of a composite font); missed at first (simple fonts only), caught after C05 got an Identity-H composite font; patch.diff rebased by the lead",
     "C20-r2-3": "not a violation of C20 as stated: the change only alters the ORDER in which Plane.find returns objects after removals (its demo reads the property as requiring insertion order for find); membership, len, contains and iteration order - what the statement asserts - are unaffected, and no layout result changes (C09 is silent too)",
     "C01-3": "C14 (tokenizer totality / buffer independence) is not expected to see this semantic change; C01 does",
     "C14-3": "C01 never writes VT inside hex strings (not PDF white space); C14 does",
